@@ -1,3 +1,1743 @@
-//! C17 harnesses (see /verif/DESIGN.md section 5).
+//! C17 - typed control-message views (ICMPv4, ICMPv6 + NDP, IGMP, ARP) follow their formats.
+//!
+//! Every oracle below is written from the wire formats and code tables of RFC 792 / 1122 / 1812
+//! / 1191 (ICMPv4), RFC 4443 / 4861 / 7112 / 8754 / 8883 (ICMPv6, NDP), RFC 2236 / 3376 / 9776
+//! (IGMP) and RFC 826 (ARP) with literal numbers; no constant and no decoding helper of
+//! etherparse is used on the oracle side. Where the RFCs are silent the documented conventions
+//! of the crate are used (what is "header" and what is "payload", `Unknown`/`Raw` fall-back,
+//! which error value names which fault).
+//!
+//! Inputs: the bytes are symbolic, the length is symbolic (`len <= N`), the decoder sees them
+//! in a heap object of exactly `len` bytes (`Tight`), the oracle reads the source array.
+//! Exceptions, because the solver cannot afford the symbolic-size object there: the multi-step
+//! NDP iterator harnesses and the quick-tier twin of the single-step one place the input
+//! end-aligned in its own object (`tail_copy`; reads past the end still fail), and the harnesses
+//! that look into the *owned* `ArpPacket` use concrete address sizes on a plain array (a copy
+//! of symbolic length followed by a read of the copy never finished).
+//! Positions are compared as (offset, length) pairs relative to the input start, never by
+//! content, so a result that points at the wrong bytes with equal content cannot pass.
 
-crate::harnesses! {}
+use crate::sym::{any, any_le, assume};
+use crate::tight::{inside, off, Tight};
+use crate::witness;
+use core::net::Ipv6Addr;
+use etherparse::err::{Layer, LenError};
+use etherparse::icmpv6::{
+    Icmpv6Payload, Icmpv6PayloadSlice, MtuOptionSlice, NdpOptionHeader, NdpOptionReadError,
+    NdpOptionSlice, NdpOptionType, NdpOptionsIterator, NeighborAdvertisementPayloadSlice,
+    NeighborSolicitationPayloadSlice, PrefixInformation, PrefixInformationOptionSlice,
+    RedirectPayloadSlice, RedirectedHeaderOptionSlice, RouterAdvertisementPayloadSlice,
+    RouterSolicitationPayloadSlice, SourceLinkLayerAddressOptionSlice,
+    TargetLinkLayerAddressOptionSlice, UnknownNdpOptionSlice,
+};
+use etherparse::*;
+
+// ------------------------------------------------------------------------------ helpers
+
+/// the decoder must accept: `Ok(v)` -> `v`, `Err` -> failed assertion with a readable message
+/// (instead of the anonymous `unwrap_failed` of `expect`)
+macro_rules! must_accept {
+    ($e:expr, $msg:literal) => {
+        match $e {
+            Ok(v) => v,
+            Err(_) => {
+                assert!(false, $msg);
+                unreachable!()
+            }
+        }
+    };
+}
+
+/// symbolic bytes + symbolic length + the exact-size copy handed to the decoder
+fn input<const N: usize>() -> ([u8; N], usize, Tight<N>) {
+    let data: [u8; N] = any();
+    let len = any_le(N);
+    let buf = Tight::<N>::from_bytes(&data[..len]);
+    (data, len, buf)
+}
+
+/// End-aligned placement (used where the exact-size heap object is too expensive for the
+/// solver): the decoder input is `&data[N - len..]`, so it ends exactly where the object `data`
+/// ends and every read past the end of the input fails a pointer check; reads in front of the
+/// input stay inside `data` and are NOT flagged (the `Tight` harnesses of the same decoders
+/// cover that side). Returns the start-aligned copy of those bytes for the oracle.
+fn tail_copy<const N: usize>(data: &[u8; N], len: usize) -> [u8; N] {
+    let base = N - len;
+    let mut d = [0u8; N];
+    let mut i = 0;
+    while i < N {
+        if i < len {
+            d[i] = data[base + i];
+        }
+        i += 1;
+    }
+    d
+}
+
+/// `sub` is exactly the byte range `[o, o + l)` of `outer`
+fn at(outer: &[u8], sub: &[u8], o: usize, l: usize) -> bool {
+    inside(outer, sub) && off(outer, sub) == o && sub.len() == l
+}
+
+fn be16(a: u8, b: u8) -> u16 {
+    ((a as u16) << 8) | (b as u16)
+}
+
+fn be32(a: u8, b: u8, c: u8, d: u8) -> u32 {
+    ((a as u32) << 24) | ((b as u32) << 16) | ((c as u32) << 8) | (d as u32)
+}
+
+/// "the slice itself is too short" error of `layer`
+fn short(required_len: usize, len: usize, layer: Layer) -> LenError {
+    LenError {
+        required_len,
+        len,
+        len_source: LenSource::Slice,
+        layer,
+        layer_start_offset: 0,
+    }
+}
+
+// ------------------------------------------------------------------------------ ICMPv4
+
+const N_ICMP4: usize = 28;
+
+/// RFC 792 (types 0, 3, 5, 8, 11, 12, 13, 14), RFC 1122 3.2.2.1 (unreachable codes 6-12),
+/// RFC 1812 5.2.7.1 (codes 13-15), RFC 1191 (next-hop MTU in the low 16 bits of word 2 of
+/// code 4), RFC 1108 / IANA (parameter problem codes 1, 2). Everything else: raw.
+/// `d` must hold at least 8 bytes (20 for an accepted timestamp message).
+fn ref_icmpv4_type(d: &[u8; N_ICMP4]) -> Icmpv4Type {
+    use etherparse::icmpv4::*;
+    let (t, c) = (d[0], d[1]);
+    let w = [d[4], d[5], d[6], d[7]];
+    let echo = IcmpEchoHeader {
+        id: be16(d[4], d[5]),
+        seq: be16(d[6], d[7]),
+    };
+    let ts = TimestampMessage {
+        id: be16(d[4], d[5]),
+        seq: be16(d[6], d[7]),
+        originate_timestamp: be32(d[8], d[9], d[10], d[11]),
+        receive_timestamp: be32(d[12], d[13], d[14], d[15]),
+        transmit_timestamp: be32(d[16], d[17], d[18], d[19]),
+    };
+    let unknown = Icmpv4Type::Unknown {
+        type_u8: t,
+        code_u8: c,
+        bytes5to8: w,
+    };
+    match t {
+        0 if c == 0 => Icmpv4Type::EchoReply(echo),
+        3 => {
+            use DestUnreachableHeader::*;
+            let h = match c {
+                0 => Network,
+                1 => Host,
+                2 => Protocol,
+                3 => Port,
+                4 => FragmentationNeeded {
+                    next_hop_mtu: be16(d[6], d[7]),
+                },
+                5 => SourceRouteFailed,
+                6 => NetworkUnknown,
+                7 => HostUnknown,
+                8 => Isolated,
+                9 => NetworkProhibited,
+                10 => HostProhibited,
+                11 => TosNetwork,
+                12 => TosHost,
+                13 => FilterProhibited,
+                14 => HostPrecedenceViolation,
+                15 => PrecedenceCutoff,
+                _ => return unknown,
+            };
+            Icmpv4Type::DestinationUnreachable(h)
+        }
+        5 => {
+            use RedirectCode::*;
+            let code = match c {
+                0 => RedirectForNetwork,
+                1 => RedirectForHost,
+                2 => RedirectForTypeOfServiceAndNetwork,
+                3 => RedirectForTypeOfServiceAndHost,
+                _ => return unknown,
+            };
+            Icmpv4Type::Redirect(RedirectHeader {
+                code,
+                gateway_internet_address: w,
+            })
+        }
+        8 if c == 0 => Icmpv4Type::EchoRequest(echo),
+        11 => match c {
+            0 => Icmpv4Type::TimeExceeded(TimeExceededCode::TtlExceededInTransit),
+            1 => Icmpv4Type::TimeExceeded(TimeExceededCode::FragmentReassemblyTimeExceeded),
+            _ => unknown,
+        },
+        12 => match c {
+            0 => Icmpv4Type::ParameterProblem(ParameterProblemHeader::PointerIndicatesError(d[4])),
+            1 => Icmpv4Type::ParameterProblem(ParameterProblemHeader::MissingRequiredOption),
+            2 => Icmpv4Type::ParameterProblem(ParameterProblemHeader::BadLength),
+            _ => unknown,
+        },
+        13 if c == 0 => Icmpv4Type::TimestampRequest(ts),
+        14 if c == 0 => Icmpv4Type::TimestampReply(ts),
+        _ => unknown,
+    }
+}
+
+/// is (type, code) one of the typed (non-raw) ICMPv4 messages?
+fn icmpv4_is_typed(t: u8, c: u8) -> bool {
+    match t {
+        0 | 8 | 13 | 14 => c == 0,
+        3 => c <= 15,
+        5 => c <= 3,
+        11 => c <= 1,
+        12 => c <= 2,
+        _ => false,
+    }
+}
+
+/// expected rejection of an ICMPv4 message: shorter than the 8 byte header, or a timestamp /
+/// timestamp reply (RFC 792: exactly 20 bytes) of any other length
+fn ref_icmpv4_reject(d: &[u8; N_ICMP4], len: usize) -> Option<LenError> {
+    if len < 8 {
+        return Some(short(8, len, Layer::Icmpv4));
+    }
+    if d[0] == 13 && d[1] == 0 && len != 20 {
+        return Some(short(20, len, Layer::Icmpv4Timestamp));
+    }
+    if d[0] == 14 && d[1] == 0 && len != 20 {
+        return Some(short(20, len, Layer::Icmpv4TimestampReply));
+    }
+    None
+}
+
+/// `Icmpv4Slice`: acceptance, every accessor, type/code dispatch over all 65536 pairs
+pub fn icmpv4_slice() {
+    let (d, len, buf) = input::<N_ICMP4>();
+    let s = buf.slice();
+    let want_err = ref_icmpv4_reject(&d, len);
+    match Icmpv4Slice::from_slice(s) {
+        Err(e) => {
+            witness!(len < 8, "icmpv4_too_short");
+            witness!(len >= 8 && d[0] == 13, "icmpv4_timestamp_wrong_size");
+            witness!(len >= 8 && d[0] == 14, "icmpv4_timestamp_reply_wrong_size");
+            assert!(want_err.is_some());
+            assert!(Some(e) == want_err);
+        }
+        Ok(v) => {
+            assert!(want_err.is_none());
+            let (t, c) = (d[0], d[1]);
+            let is_ts = (t == 13 || t == 14) && c == 0;
+            let hl = if is_ts { 20 } else { 8 };
+            assert!(at(s, v.slice(), 0, len));
+            assert!(v.type_u8() == t);
+            assert!(v.code_u8() == c);
+            assert!(v.checksum() == be16(d[2], d[3]));
+            assert!(v.bytes5to8() == [d[4], d[5], d[6], d[7]]);
+            assert!(v.header_len() == hl);
+            // fixed / variable split: everything behind the header is payload
+            assert!(at(s, v.payload(), hl, len - hl));
+            let want = ref_icmpv4_type(&d);
+            let got = v.icmp_type();
+            assert!(got == want);
+            // raw fall-back exactly for the pairs outside the table
+            let got_unknown = matches!(got, Icmpv4Type::Unknown { .. });
+            assert!(got_unknown == !icmpv4_is_typed(t, c));
+            assert!(got.header_len() == hl);
+            assert!(got.fixed_payload_size() == if is_ts { Some(0) } else { None });
+            let h = v.header();
+            assert!(h.icmp_type == want);
+            assert!(h.checksum == be16(d[2], d[3]));
+            witness!(is_ts && t == 13, "icmpv4_timestamp_ok");
+            witness!(is_ts && t == 14, "icmpv4_timestamp_reply_ok");
+            witness!(t == 3 && c == 4, "icmpv4_frag_needed");
+            witness!(t == 3 && c == 16, "icmpv4_unreachable_unassigned_code");
+            witness!(t == 0 && c == 1, "icmpv4_echo_reply_nonzero_code_is_raw");
+            witness!(t == 13 && c == 1 && len == 9, "icmpv4_timestamp_nonzero_code_is_raw");
+            witness!(t == 12 && c == 0, "icmpv4_param_problem_pointer");
+            witness!(t == 5 && c == 3, "icmpv4_redirect_tos_host");
+            witness!(t == 42 && len == N_ICMP4, "icmpv4_unassigned_type_with_payload");
+        }
+    }
+}
+
+/// `Icmpv4Header::from_slice`: same acceptance, same dispatch, rest = bytes behind the header
+pub fn icmpv4_header() {
+    let (d, len, buf) = input::<N_ICMP4>();
+    let s = buf.slice();
+    let want_err = ref_icmpv4_reject(&d, len);
+    match Icmpv4Header::from_slice(s) {
+        Err(e) => {
+            witness!(len >= 8, "icmpv4_header_timestamp_rejected");
+            assert!(Some(e) == want_err);
+        }
+        Ok((h, rest)) => {
+            assert!(want_err.is_none());
+            let is_ts = (d[0] == 13 || d[0] == 14) && d[1] == 0;
+            let hl = if is_ts { 20 } else { 8 };
+            assert!(h.icmp_type == ref_icmpv4_type(&d));
+            assert!(h.checksum == be16(d[2], d[3]));
+            assert!(h.header_len() == hl);
+            assert!(h.fixed_payload_size() == if is_ts { Some(0) } else { None });
+            assert!(at(s, rest, hl, len - hl));
+            witness!(is_ts, "icmpv4_header_timestamp_ok");
+            witness!(!is_ts && len > 8, "icmpv4_header_with_payload");
+        }
+    }
+}
+
+// ------------------------------------------------------------------------------ ICMPv6
+
+const N_ICMP6: usize = 48;
+
+/// RFC 4443 (types 1-4, 128, 129; unreachable codes 0-6, time exceeded 0-1, parameter problem
+/// 0-2), parameter problem codes 3 (RFC 7112), 4 (RFC 8754), 5-10 (RFC 8883), RFC 4861 (133-137,
+/// "ICMP Code is 0"; RA word 2 = cur hop limit, M, O, router lifetime; NA word 2 = R, S, O).
+fn ref_icmpv6_type(d: &[u8; N_ICMP6]) -> Icmpv6Type {
+    use etherparse::icmpv6::*;
+    let (t, c) = (d[0], d[1]);
+    let w = [d[4], d[5], d[6], d[7]];
+    let w32 = be32(d[4], d[5], d[6], d[7]);
+    let echo = IcmpEchoHeader {
+        id: be16(d[4], d[5]),
+        seq: be16(d[6], d[7]),
+    };
+    let unknown = Icmpv6Type::Unknown {
+        type_u8: t,
+        code_u8: c,
+        bytes5to8: w,
+    };
+    match t {
+        1 => {
+            use DestUnreachableCode::*;
+            Icmpv6Type::DestinationUnreachable(match c {
+                0 => NoRoute,
+                1 => Prohibited,
+                2 => BeyondScope,
+                3 => Address,
+                4 => Port,
+                5 => SourceAddressFailedPolicy,
+                6 => RejectRoute,
+                _ => return unknown,
+            })
+        }
+        2 if c == 0 => Icmpv6Type::PacketTooBig { mtu: w32 },
+        3 => match c {
+            0 => Icmpv6Type::TimeExceeded(TimeExceededCode::HopLimitExceeded),
+            1 => Icmpv6Type::TimeExceeded(TimeExceededCode::FragmentReassemblyTimeExceeded),
+            _ => unknown,
+        },
+        4 => {
+            use ParameterProblemCode::*;
+            let code = match c {
+                0 => ErroneousHeaderField,
+                1 => UnrecognizedNextHeader,
+                2 => UnrecognizedIpv6Option,
+                3 => Ipv6FirstFragmentIncompleteHeaderChain,
+                4 => SrUpperLayerHeaderError,
+                5 => UnrecognizedNextHeaderByIntermediateNode,
+                6 => ExtensionHeaderTooBig,
+                7 => ExtensionHeaderChainTooLong,
+                8 => TooManyExtensionHeaders,
+                9 => TooManyOptionsInExtensionHeader,
+                10 => OptionTooBig,
+                _ => return unknown,
+            };
+            Icmpv6Type::ParameterProblem(ParameterProblemHeader { code, pointer: w32 })
+        }
+        128 if c == 0 => Icmpv6Type::EchoRequest(echo),
+        129 if c == 0 => Icmpv6Type::EchoReply(echo),
+        133 if c == 0 => Icmpv6Type::RouterSolicitation,
+        134 if c == 0 => Icmpv6Type::RouterAdvertisement(RouterAdvertisementHeader {
+            cur_hop_limit: d[4],
+            managed_address_config: d[5] & 0x80 != 0,
+            other_config: d[5] & 0x40 != 0,
+            router_lifetime: be16(d[6], d[7]),
+        }),
+        135 if c == 0 => Icmpv6Type::NeighborSolicitation,
+        136 if c == 0 => Icmpv6Type::NeighborAdvertisement(NeighborAdvertisementHeader {
+            router: d[4] & 0x80 != 0,
+            solicited: d[4] & 0x40 != 0,
+            r#override: d[4] & 0x20 != 0,
+        }),
+        137 if c == 0 => Icmpv6Type::Redirect,
+        _ => unknown,
+    }
+}
+
+/// kinds of structured ICMPv6 payloads (0 = raw)
+const K_RAW: u8 = 0;
+const K_UNREACH: u8 = 1;
+const K_TOO_BIG: u8 = 2;
+const K_TIME_EXCEEDED: u8 = 3;
+const K_PARAM_PROBLEM: u8 = 4;
+const K_ECHO_REQUEST: u8 = 5;
+const K_ECHO_REPLY: u8 = 6;
+const K_RS: u8 = 7;
+const K_RA: u8 = 8;
+const K_NS: u8 = 9;
+const K_NA: u8 = 10;
+const K_REDIRECT: u8 = 11;
+
+/// (type, code) -> payload kind, from the same RFC tables as `ref_icmpv6_type`
+fn ref_icmpv6_kind(t: u8, c: u8) -> u8 {
+    match t {
+        1 if c <= 6 => K_UNREACH,
+        2 if c == 0 => K_TOO_BIG,
+        3 if c <= 1 => K_TIME_EXCEEDED,
+        4 if c <= 10 => K_PARAM_PROBLEM,
+        128 if c == 0 => K_ECHO_REQUEST,
+        129 if c == 0 => K_ECHO_REPLY,
+        133 if c == 0 => K_RS,
+        134 if c == 0 => K_RA,
+        135 if c == 0 => K_NS,
+        136 if c == 0 => K_NA,
+        137 if c == 0 => K_REDIRECT,
+        _ => K_RAW,
+    }
+}
+
+/// bytes of the payload (behind the 8 byte ICMPv6 header) that have a fixed layout:
+/// RFC 4861 4.1 none, 4.2 reachable time + retrans timer, 4.3 / 4.4 target address,
+/// 4.5 target + destination address
+fn ref_icmpv6_fixed_part(kind: u8) -> usize {
+    match kind {
+        K_RA => 8,
+        K_NS | K_NA => 16,
+        K_REDIRECT => 32,
+        _ => 0,
+    }
+}
+
+/// `Icmpv6Slice` + `Icmpv6Header::from_slice`: acceptance, accessors, (type, code) dispatch
+pub fn icmpv6_slice() {
+    let (d, len, buf) = input::<N_ICMP6>();
+    let s = buf.slice();
+    let r = Icmpv6Slice::from_slice(s);
+    let rh = Icmpv6Header::from_slice(s);
+    if len < 8 {
+        witness!(len == 7, "icmpv6_too_short");
+        assert!(r.err() == Some(short(8, len, Layer::Icmpv6)));
+        assert!(rh.err() == Some(short(8, len, Layer::Icmpv6)));
+        return;
+    }
+    let v = must_accept!(r, "Icmpv6Slice rejected a complete 8 byte header");
+    let (t, c) = (d[0], d[1]);
+    assert!(at(s, v.slice(), 0, len));
+    assert!(v.type_u8() == t);
+    assert!(v.code_u8() == c);
+    assert!(v.checksum() == be16(d[2], d[3]));
+    assert!(v.bytes5to8() == [d[4], d[5], d[6], d[7]]);
+    assert!(v.header_len() == 8);
+    assert!(at(s, v.payload(), 8, len - 8));
+    let want = ref_icmpv6_type(&d);
+    let got = v.icmp_type();
+    assert!(got == want);
+    let got_unknown = matches!(got, Icmpv6Type::Unknown { .. });
+    assert!(got_unknown == (ref_icmpv6_kind(t, c) == K_RAW));
+    // the typed value names the (type, code) it was decoded from
+    assert!(got.type_u8() == t);
+    assert!(got.code_u8() == c);
+    assert!(got.header_len() == 8);
+    assert!(got.fixed_payload_size().is_none());
+    let h = v.header();
+    assert!(h.icmp_type == want);
+    assert!(h.checksum == be16(d[2], d[3]));
+    let (h2, rest) = must_accept!(rh, "Icmpv6Header::from_slice rejected a complete 8 byte header");
+    assert!(h2.icmp_type == want);
+    assert!(h2.checksum == be16(d[2], d[3]));
+    assert!(h2.header_len() == 8);
+    assert!(at(s, rest, 8, len - 8));
+    witness!(t == 1 && c == 6, "icmpv6_unreachable_reject_route");
+    witness!(t == 1 && c == 7, "icmpv6_unreachable_code7_is_raw");
+    witness!(t == 4 && c == 10, "icmpv6_param_problem_option_too_big");
+    witness!(t == 4 && c == 11, "icmpv6_param_problem_code11_is_raw");
+    witness!(t == 134 && c == 0 && d[5] == 0x40, "icmpv6_router_advertisement_o_flag");
+    witness!(t == 136 && c == 0 && d[4] == 0x20, "icmpv6_neighbor_advertisement_override");
+    witness!(t == 137 && c == 1, "icmpv6_redirect_nonzero_code_is_raw");
+    witness!(t == 130, "icmpv6_mld_query_is_raw");
+    witness!(t == 2 && c == 0 && len == N_ICMP6, "icmpv6_packet_too_big_max_len");
+}
+
+/// (kind, fixed part accessor results) of a structured payload, positions relative to `p`
+struct PayloadDigest {
+    kind: u8,
+    whole: (usize, usize),
+    variable: (usize, usize),
+}
+
+fn pos(outer: &[u8], sub: &[u8]) -> (usize, usize) {
+    assert!(inside(outer, sub));
+    (off(outer, sub), sub.len())
+}
+
+fn digest_payload(p: &[u8], v: &Icmpv6PayloadSlice) -> PayloadDigest {
+    use Icmpv6PayloadSlice::*;
+    let (kind, whole, variable) = match v {
+        DestinationUnreachable(x) => (K_UNREACH, x.slice(), x.invoking_packet()),
+        PacketTooBig(x) => (K_TOO_BIG, x.slice(), x.invoking_packet()),
+        TimeExceeded(x) => (K_TIME_EXCEEDED, x.slice(), x.invoking_packet()),
+        ParameterProblem(x) => (K_PARAM_PROBLEM, x.slice(), x.invoking_packet()),
+        EchoRequest(x) => (K_ECHO_REQUEST, x.slice(), x.data()),
+        EchoReply(x) => (K_ECHO_REPLY, x.slice(), x.data()),
+        RouterSolicitation(x) => (K_RS, x.slice(), x.options()),
+        RouterAdvertisement(x) => (K_RA, x.slice(), x.options()),
+        NeighborSolicitation(x) => (K_NS, x.slice(), x.options()),
+        NeighborAdvertisement(x) => (K_NA, x.slice(), x.options()),
+        Redirect(x) => (K_REDIRECT, x.slice(), x.options()),
+        Raw(x) => (K_RAW, *x, *x),
+        _ => {
+            assert!(false, "payload variant unknown to the oracle");
+            unreachable!()
+        }
+    };
+    // the enum level accessor returns the same bytes as the variant level one
+    assert!(pos(p, v.slice()) == pos(p, whole));
+    PayloadDigest {
+        kind,
+        whole: pos(p, whole),
+        variable: pos(p, variable),
+    }
+}
+
+/// `Icmpv6Slice::payload_slice` (-> `Icmpv6PayloadSlice::from_type_u8`),
+/// `Icmpv6PayloadSlice::from_slice`, `Icmpv6Type::{payload_slice, payload_from_slice}`,
+/// `Icmpv6PayloadSlice::to_payload`: kind per (type, code), fixed / variable split, rejection
+/// exactly when the fixed part does not fit
+pub fn icmpv6_payload_dispatch() {
+    let (d, len, buf) = input::<N_ICMP6>();
+    assume(len >= 8);
+    let s = buf.slice();
+    let v = must_accept!(Icmpv6Slice::from_slice(s), "Icmpv6Slice rejected a complete 8 byte header");
+    let p = v.payload();
+    assert!(at(s, p, 8, len - 8));
+    let plen = len - 8;
+    let (t, c) = (d[0], d[1]);
+    let kind = ref_icmpv6_kind(t, c);
+    let fixed = ref_icmpv6_fixed_part(kind);
+    let ty = v.icmp_type();
+    let a = v.payload_slice();
+    let b = Icmpv6PayloadSlice::from_slice(&ty, p);
+    let b2 = ty.payload_slice(p);
+    let owned = ty.payload_from_slice(p);
+    if plen < fixed {
+        // error names the fixed part that did not fit and the bytes that were there
+        let want = short(fixed, plen, Layer::Icmpv6);
+        assert!(a.err() == Some(want.clone()));
+        assert!(b.err() == Some(want.clone()));
+        assert!(b2.err() == Some(want.clone()));
+        assert!(owned.err() == Some(want));
+        witness!(kind == K_RA && plen == 7, "payload_ra_fixed_part_cut");
+        witness!(kind == K_NS && plen == 15, "payload_ns_fixed_part_cut");
+        witness!(kind == K_NA && plen == 0, "payload_na_empty");
+        witness!(kind == K_REDIRECT && plen == 31, "payload_redirect_fixed_part_cut");
+        return;
+    }
+    let a = must_accept!(a, "payload_slice rejected a payload whose fixed part fits");
+    let b = must_accept!(b, "Icmpv6PayloadSlice::from_slice rejected a payload whose fixed part fits");
+    let b2 = must_accept!(b2, "Icmpv6Type::payload_slice rejected a payload whose fixed part fits");
+    let owned = must_accept!(owned, "payload_from_slice rejected a payload whose fixed part fits");
+    let da = digest_payload(p, &a);
+    let db = digest_payload(p, &b);
+    let db2 = digest_payload(p, &b2);
+    assert!(da.kind == kind);
+    assert!(da.whole == (0, plen));
+    assert!(da.variable == (fixed, plen - fixed));
+    assert!(db.kind == kind && db.whole == da.whole && db.variable == da.variable);
+    assert!(db2.kind == kind && db2.whole == da.whole && db2.variable == da.variable);
+    // owned form: exists exactly for the five neighbour discovery messages, trailing bytes are
+    // the option area
+    let ndp = matches!(kind, K_RS | K_RA | K_NS | K_NA | K_REDIRECT);
+    assert!(a.to_payload().is_some() == ndp);
+    assert!(owned.is_some() == ndp);
+    if let Some((pl, opts)) = owned {
+        assert!(at(p, opts, fixed, plen - fixed));
+        assert!(pl.len() == fixed);
+        assert!(pl.is_empty() == (kind == K_RS));
+        let k = match pl {
+            Icmpv6Payload::RouterSolicitation(_) => K_RS,
+            Icmpv6Payload::RouterAdvertisement(_) => K_RA,
+            Icmpv6Payload::NeighborSolicitation(_) => K_NS,
+            Icmpv6Payload::NeighborAdvertisement(_) => K_NA,
+            Icmpv6Payload::Redirect(_) => K_REDIRECT,
+            _ => K_RAW,
+        };
+        assert!(k == kind);
+    }
+    witness!(kind == K_RAW && t == 1, "payload_unreachable_unassigned_code_raw");
+    witness!(kind == K_RAW && t == 133, "payload_rs_nonzero_code_raw");
+    witness!(kind == K_RAW && t == 200 && plen == 40, "payload_unassigned_type_raw");
+    witness!(kind == K_UNREACH && plen == 40, "payload_unreachable");
+    witness!(kind == K_TOO_BIG, "payload_too_big");
+    witness!(kind == K_TIME_EXCEEDED, "payload_time_exceeded");
+    witness!(kind == K_PARAM_PROBLEM && c == 10, "payload_param_problem");
+    witness!(kind == K_ECHO_REQUEST && plen == 0, "payload_echo_request_empty");
+    witness!(kind == K_ECHO_REPLY, "payload_echo_reply");
+    witness!(kind == K_RS && plen == 8, "payload_rs_one_option");
+    witness!(kind == K_RA && plen == 8, "payload_ra_no_options");
+    witness!(kind == K_NS && plen == 24, "payload_ns_one_option");
+    witness!(kind == K_NA && plen == 16, "payload_na_no_options");
+    witness!(kind == K_REDIRECT && plen == 40, "payload_redirect_one_option");
+}
+
+/// `Icmpv4Header::read` / `Icmpv6Header::read` from an in-memory reader: same dispatch as the
+/// slice decoders; exactly the header is consumed (8 bytes, 20 for a timestamp message - a
+/// reader, unlike a slice, does not say where the message ends); too few bytes: `UnexpectedEof`
+pub fn icmp_header_read() {
+    use std::io::{Cursor, ErrorKind};
+    // ICMPv4
+    {
+        let d: [u8; N_ICMP4] = any();
+        let len = any_le(N_ICMP4);
+        let mut c = Cursor::new(&d[..len]);
+        let r = Icmpv4Header::read(&mut c);
+        let is_ts = len >= 8 && (d[0] == 13 || d[0] == 14) && d[1] == 0;
+        let need = if is_ts { 20 } else { 8 };
+        match r {
+            Err(e) => {
+                assert!(len < need);
+                assert!(e.kind() == ErrorKind::UnexpectedEof);
+                witness!(len == 7, "read_v4_header_cut");
+                witness!(len == 19, "read_v4_timestamp_cut");
+            }
+            Ok(h) => {
+                assert!(len >= need);
+                assert!(h.icmp_type == ref_icmpv4_type(&d));
+                assert!(h.checksum == be16(d[2], d[3]));
+                assert!(c.position() == need as u64);
+                witness!(is_ts && len == N_ICMP4, "read_v4_timestamp_followed_by_more_bytes");
+                witness!(d[0] == 3 && d[1] == 4, "read_v4_frag_needed");
+                witness!(d[0] == 13 && d[1] == 1 && len == 8, "read_v4_timestamp_nonzero_code_raw");
+            }
+        }
+    }
+    // ICMPv6
+    {
+        let d: [u8; N_ICMP6] = any();
+        let len = any_le(16);
+        let mut c = Cursor::new(&d[..len]);
+        match Icmpv6Header::read(&mut c) {
+            Err(e) => {
+                assert!(len < 8);
+                assert!(e.kind() == ErrorKind::UnexpectedEof);
+                witness!(len == 7, "read_v6_header_cut");
+            }
+            Ok(h) => {
+                assert!(len >= 8);
+                assert!(h.icmp_type == ref_icmpv6_type(&d));
+                assert!(h.checksum == be16(d[2], d[3]));
+                assert!(c.position() == 8);
+                witness!(d[0] == 134 && d[1] == 0 && len == 16, "read_v6_router_advertisement");
+                witness!(d[0] == 134 && d[1] == 1, "read_v6_router_advertisement_nonzero_code_raw");
+            }
+        }
+    }
+}
+
+// ------------------------------------------------------------------------------ NDP payloads
+
+const N_NDP_PAYLOAD: usize = 40;
+
+fn ipv6_at<const N: usize>(d: &[u8; N], o: usize) -> Ipv6Addr {
+    let mut a = [0u8; 16];
+    a.copy_from_slice(&d[o..o + 16]);
+    Ipv6Addr::from(a)
+}
+
+/// RFC 4861 4.1 / 4.2: router solicitation (options only) and router advertisement
+/// (reachable time, retrans timer, options)
+pub fn ndp_router_payloads() {
+    let (d, len, buf) = input::<N_NDP_PAYLOAD>();
+    let s = buf.slice();
+    // router solicitation: never rejected, everything is option area
+    let rs = must_accept!(RouterSolicitationPayloadSlice::from_slice(s), "router solicitation payload rejected (it has no fixed part)");
+    assert!(at(s, rs.slice(), 0, len));
+    assert!(at(s, rs.options(), 0, len));
+    assert!(at(s, rs.options_iterator().rest(), 0, len));
+    let (_, o) = rs.to_payload();
+    assert!(at(s, o, 0, len));
+    // router advertisement
+    match RouterAdvertisementPayloadSlice::from_slice(s) {
+        Err(e) => {
+            witness!(len == 7, "ra_payload_too_short");
+            assert!(len < 8);
+            assert!(e == short(8, len, Layer::Icmpv6));
+        }
+        Ok(ra) => {
+            assert!(len >= 8);
+            let reach = be32(d[0], d[1], d[2], d[3]);
+            let retrans = be32(d[4], d[5], d[6], d[7]);
+            assert!(at(s, ra.slice(), 0, len));
+            assert!(ra.reachable_time() == reach);
+            assert!(ra.retrans_timer() == retrans);
+            assert!(at(s, ra.options(), 8, len - 8));
+            assert!(at(s, ra.options_iterator().rest(), 8, len - 8));
+            let (pl, o) = ra.to_payload();
+            assert!(pl.reachable_time == reach);
+            assert!(pl.retrans_timer == retrans);
+            assert!(at(s, o, 8, len - 8));
+            witness!(len == 8, "ra_payload_no_options");
+            witness!(len == N_NDP_PAYLOAD && reach != retrans, "ra_payload_with_options");
+        }
+    }
+}
+
+/// RFC 4861 4.3 / 4.4: neighbour solicitation / advertisement (target address, options)
+pub fn ndp_neighbor_payloads() {
+    let (d, len, buf) = input::<N_NDP_PAYLOAD>();
+    let s = buf.slice();
+    let ns = NeighborSolicitationPayloadSlice::from_slice(s);
+    let na = NeighborAdvertisementPayloadSlice::from_slice(s);
+    if len < 16 {
+        witness!(len == 15, "neighbor_payload_too_short");
+        assert!(ns.err() == Some(short(16, len, Layer::Icmpv6)));
+        assert!(na.err() == Some(short(16, len, Layer::Icmpv6)));
+        return;
+    }
+    let target = ipv6_at(&d, 0);
+    let ns = must_accept!(ns, "neighbor solicitation payload with a complete target address rejected");
+    assert!(at(s, ns.slice(), 0, len));
+    assert!(ns.target_address() == target);
+    assert!(at(s, ns.options(), 16, len - 16));
+    assert!(at(s, ns.options_iterator().rest(), 16, len - 16));
+    let (pl, o) = ns.to_payload();
+    assert!(pl.target_address == target);
+    assert!(at(s, o, 16, len - 16));
+    let na = must_accept!(na, "neighbor advertisement payload with a complete target address rejected");
+    assert!(at(s, na.slice(), 0, len));
+    assert!(na.target_address() == target);
+    assert!(at(s, na.options(), 16, len - 16));
+    assert!(at(s, na.options_iterator().rest(), 16, len - 16));
+    let (pl, o) = na.to_payload();
+    assert!(pl.target_address == target);
+    assert!(at(s, o, 16, len - 16));
+    witness!(len == 16, "neighbor_payload_no_options");
+    witness!(len == 24 && d[0] != d[15], "neighbor_payload_one_option");
+}
+
+/// RFC 4861 4.5: redirect (target address, destination address, options)
+pub fn ndp_redirect_payload() {
+    let (d, len, buf) = input::<N_NDP_PAYLOAD>();
+    let s = buf.slice();
+    match RedirectPayloadSlice::from_slice(s) {
+        Err(e) => {
+            witness!(len == 31, "redirect_payload_too_short");
+            assert!(len < 32);
+            assert!(e == short(32, len, Layer::Icmpv6));
+        }
+        Ok(r) => {
+            assert!(len >= 32);
+            let target = ipv6_at(&d, 0);
+            let dest = ipv6_at(&d, 16);
+            assert!(at(s, r.slice(), 0, len));
+            assert!(r.target_address() == target);
+            assert!(r.destination_address() == dest);
+            assert!(at(s, r.options(), 32, len - 32));
+            assert!(at(s, r.options_iterator().rest(), 32, len - 32));
+            let (pl, o) = r.to_payload();
+            assert!(pl.target_address == target);
+            assert!(pl.destination_address == dest);
+            assert!(at(s, o, 32, len - 32));
+            witness!(len == 32, "redirect_payload_no_options");
+            witness!(len == 40 && d[0] != d[16], "redirect_payload_one_option");
+        }
+    }
+}
+
+// ------------------------------------------------------------------------------ NDP options
+//
+// RFC 4861 4.6: every option is | type | length | ... | with the length in units of 8 octets
+// (type and length included); length 0 is invalid. 4.6.1 source / target link-layer address
+// (types 1, 2, variable), 4.6.2 prefix information (type 3, length 4), 4.6.3 redirected header
+// (type 4, 8 fixed bytes + packet), 4.6.4 MTU (type 5, length 1). Every other type: raw form.
+//
+// Which of several simultaneous faults an error names is prescribed nowhere, so the oracles
+// accept any error value that is a TRUE statement about the input (exact field values) and
+// demand rejection exactly when at least one fault is present.
+
+/// length (in units) RFC 4861 fixes for an option type
+fn ndp_fixed_units(t: u8) -> Option<u8> {
+    match t {
+        3 => Some(4),
+        5 => Some(1),
+        _ => None,
+    }
+}
+
+const NK_SLLA: u8 = 1;
+const NK_TLLA: u8 = 2;
+const NK_PREFIX: u8 = 3;
+const NK_REDIRECTED: u8 = 4;
+const NK_MTU: u8 = 5;
+const NK_UNKNOWN: u8 = 0;
+
+/// typed form per option type; raw form for 0 and everything above 5
+fn ref_ndp_kind(t: u8) -> u8 {
+    if t >= 1 && t <= 5 {
+        t
+    } else {
+        NK_UNKNOWN
+    }
+}
+
+fn ndp_kind_of(o: &NdpOptionSlice) -> u8 {
+    match o {
+        NdpOptionSlice::SourceLinkLayerAddress(_) => NK_SLLA,
+        NdpOptionSlice::TargetLinkLayerAddress(_) => NK_TLLA,
+        NdpOptionSlice::PrefixInformation(_) => NK_PREFIX,
+        NdpOptionSlice::RedirectedHeader(_) => NK_REDIRECTED,
+        NdpOptionSlice::Mtu(_) => NK_MTU,
+        NdpOptionSlice::Unknown(_) => NK_UNKNOWN,
+        _ => 0xff,
+    }
+}
+
+/// the option starting `rem >= 1` bytes before the end of the area with first bytes (t, u)
+/// cannot be handed out
+fn ndp_iter_faulty(t: u8, u: u8, rem: usize) -> bool {
+    if rem < 2 {
+        return true; // not even type + length
+    }
+    let olen = (u as usize) * 8;
+    u == 0
+        || olen > rem
+        || match ndp_fixed_units(t) {
+            Some(fu) => fu != u,
+            None => false,
+        }
+}
+
+/// `e` is a true statement about that option
+fn ndp_iter_err_truthful(e: &NdpOptionReadError, t: u8, u: u8, rem: usize) -> bool {
+    use NdpOptionReadError::*;
+    let olen = (u as usize) * 8;
+    if rem < 2 {
+        // only the type byte is there: 2 bytes needed, `rem` present
+        return match *e {
+            UnexpectedSize {
+                option_id,
+                expected_size,
+                actual_size,
+            }
+            | UnexpectedEndOfSlice {
+                option_id,
+                expected_size,
+                actual_size,
+            } => option_id.0 == t && expected_size == 2 && actual_size == rem,
+            _ => false,
+        };
+    }
+    match *e {
+        ZeroLength { option_id } => option_id.0 == t && u == 0,
+        UnexpectedEndOfSlice {
+            option_id,
+            expected_size,
+            actual_size,
+        } => option_id.0 == t && olen > rem && expected_size == olen && actual_size == rem,
+        UnexpectedSize {
+            option_id,
+            expected_size,
+            actual_size,
+        } => match ndp_fixed_units(t) {
+            Some(fu) => {
+                fu != u && option_id.0 == t && expected_size == (fu as usize) * 8 && actual_size == olen
+            }
+            None => false,
+        },
+        UnexpectedHeader {
+            expected_option_id,
+            actual_option_id,
+            expected_length_units,
+            actual_length_units,
+        } => match ndp_fixed_units(t) {
+            Some(fu) => {
+                fu != u
+                    && expected_option_id.0 == t
+                    && actual_option_id.0 == t
+                    && expected_length_units == fu
+                    && actual_length_units == u
+            }
+            None => false,
+        },
+        _ => false,
+    }
+}
+
+/// typed view of one accepted option: variant per type, fixed / variable split, field values
+fn check_ndp_option<const N: usize>(d: &[u8; N], s: &[u8], o: &NdpOptionSlice, p: usize, olen: usize, i16: usize) {
+    let t = d[p];
+    assert!(at(s, o.as_bytes(), p, olen));
+    assert!(o.option_type().0 == t);
+    assert!(ndp_kind_of(o) == ref_ndp_kind(t));
+    match o {
+        NdpOptionSlice::SourceLinkLayerAddress(x) => {
+            assert!(x.option_type().0 == 1);
+            assert!(at(s, x.as_bytes(), p, olen));
+            assert!(at(s, x.link_layer_address(), p + 2, olen - 2));
+        }
+        NdpOptionSlice::TargetLinkLayerAddress(x) => {
+            assert!(x.option_type().0 == 2);
+            assert!(at(s, x.as_bytes(), p, olen));
+            assert!(at(s, x.link_layer_address(), p + 2, olen - 2));
+        }
+        NdpOptionSlice::PrefixInformation(x) => {
+            assert!(olen == 32);
+            assert!(x.option_type().0 == 3);
+            assert!(at(s, &x.as_bytes()[..], p, 32));
+            let valid = be32(d[p + 4], d[p + 5], d[p + 6], d[p + 7]);
+            let preferred = be32(d[p + 8], d[p + 9], d[p + 10], d[p + 11]);
+            assert!(x.prefix_length() == d[p + 2]);
+            assert!(x.on_link() == (d[p + 3] & 0x80 != 0));
+            assert!(x.autonomous_address_configuration() == (d[p + 3] & 0x40 != 0));
+            assert!(x.valid_lifetime() == valid);
+            assert!(x.preferred_lifetime() == preferred);
+            assert!(x.prefix()[i16] == d[p + 16 + i16]);
+            let pi = x.prefix_information();
+            assert!(pi.prefix_length == d[p + 2]);
+            assert!(pi.on_link == (d[p + 3] & 0x80 != 0));
+            assert!(pi.autonomous_address_configuration == (d[p + 3] & 0x40 != 0));
+            assert!(pi.valid_lifetime == valid);
+            assert!(pi.preferred_lifetime == preferred);
+            assert!(pi.prefix[i16] == d[p + 16 + i16]);
+        }
+        NdpOptionSlice::RedirectedHeader(x) => {
+            assert!(x.option_type().0 == 4);
+            assert!(at(s, x.as_bytes(), p, olen));
+            assert!(at(s, x.redirected_packet(), p + 8, olen - 8));
+        }
+        NdpOptionSlice::Mtu(x) => {
+            assert!(olen == 8);
+            assert!(x.option_type().0 == 5);
+            assert!(at(s, x.as_bytes(), p, 8));
+            assert!(x.mtu() == be32(d[p + 4], d[p + 5], d[p + 6], d[p + 7]));
+        }
+        NdpOptionSlice::Unknown(x) => {
+            assert!(x.option_type().0 == t);
+            assert!(at(s, x.as_bytes(), p, olen));
+            assert!(at(s, x.data(), p + 2, olen - 2));
+        }
+        _ => assert!(false, "option variant unknown to the oracle"),
+    }
+}
+
+const N_NDP_OPT: usize = 40;
+
+/// first `next()` of `NdpOptionsIterator` on an arbitrary area: dispatch per option type, all
+/// field values of the typed option, rest, error values, exhaustion after an error
+fn ndp_iter_first_on(d: &[u8; N_NDP_OPT], s: &[u8], len: usize) {
+    let i16 = any_le(15);
+    let mut it = NdpOptionsIterator::from_slice(s);
+    assert!(at(s, it.rest(), 0, len));
+    let r = it.next();
+    let (t, u) = (d[0], if len >= 2 { d[1] } else { 0 });
+    let faulty = len > 0 && ndp_iter_faulty(t, u, len);
+    // is the iterator at its end after this call (end of the area or an error)?
+    let mut at_end = true;
+    match r {
+        None => {
+            assert!(len == 0);
+            witness!(true, "first_none_on_empty_area");
+        }
+        Some(Err(e)) => {
+            assert!(len > 0 && faulty);
+            assert!(ndp_iter_err_truthful(&e, t, u, len));
+            witness!(len == 1, "first_err_single_byte");
+            witness!(len >= 2 && u == 0, "first_err_zero_length");
+            witness!(len == 39 && u == 5, "first_err_one_byte_missing");
+            witness!(len >= 32 && t == 3 && u == 3, "first_err_prefix_info_3_units");
+            witness!(len >= 40 && t == 3 && u == 5, "first_err_prefix_info_5_units");
+            witness!(len >= 16 && t == 5 && u == 2, "first_err_mtu_2_units");
+        }
+        Some(Ok(o)) => {
+            assert!(len > 0 && !faulty);
+            let olen = (u as usize) * 8;
+            check_ndp_option(d, s, &o, 0, olen, i16);
+            assert!(at(s, it.rest(), olen, len - olen));
+            at_end = olen == len;
+            witness!(t == 1 && olen == 8 && len == 8, "first_ok_source_lla");
+            witness!(t == 2 && olen == 16, "first_ok_target_lla_16");
+            witness!(t == 3 && len == 40, "first_ok_prefix_info_then_more");
+            witness!(t == 4 && olen == 8, "first_ok_redirected_header_empty");
+            witness!(t == 4 && olen == 40, "first_ok_redirected_header_32");
+            witness!(t == 5, "first_ok_mtu");
+            witness!(t == 0, "first_ok_type0_raw");
+            witness!(t == 6 && olen == 24, "first_ok_type6_raw");
+        }
+    }
+    if at_end {
+        // nothing left (an error empties the iterator): it stays exhausted
+        assert!(it.rest().is_empty());
+        assert!(it.next().is_none());
+        assert!(it.rest().is_empty());
+    }
+}
+
+/// end-aligned placement (quick tier)
+pub fn ndp_iter_first() {
+    let data: [u8; N_NDP_OPT] = any();
+    let len = any_le(N_NDP_OPT);
+    let d = tail_copy(&data, len);
+    ndp_iter_first_on(&d, &data[N_NDP_OPT - len..], len)
+}
+
+/// exact-size heap object (thorough tier)
+pub fn ndp_iter_first_tight() {
+    let (d, len, buf) = input::<N_NDP_OPT>();
+    ndp_iter_first_on(&d, buf.slice(), len)
+}
+
+/// `NdpOptionsIterator` over the whole area: the options handed out tile the option area from
+/// offset 0 without gap or overlap up to the first rejected option; rejection exactly for a
+/// truncated header, zero length, length running past the end, wrong fixed length; exhausted
+/// for good after an error. (Field values of the typed options: `ndp_iter_first` and the
+/// stand-alone option harnesses.)
+fn ndp_iter<const N: usize>() {
+    let data: [u8; N] = any();
+    let len = any_le(N);
+    // end-aligned placement: the area ends exactly where the object `data` ends
+    let s = &data[N - len..];
+    let d = tail_copy(&data, len);
+    let mut it = NdpOptionsIterator::from_slice(s);
+    assert!(at(s, it.rest(), 0, len));
+    let mut p = 0usize; // end of the previous option = expected start of the next one
+    let mut n_ok = 0usize;
+    let mut finished = false;
+    let mut errored = false;
+    // every accepted option has at least 8 bytes: at most N/8 of them, then None or an error
+    let mut round = 0;
+    while round < N / 8 + 1 {
+        round += 1;
+        let r = it.next();
+        if p == len {
+            assert!(r.is_none());
+            witness!(n_ok == 0, "iter_empty_area");
+            witness!(n_ok == 2, "iter_two_options_fill_area");
+            witness!(n_ok == N / 8, "iter_max_number_of_options");
+            finished = true;
+            break;
+        }
+        let rem = len - p;
+        let t = d[p];
+        let u = if rem >= 2 { d[p + 1] } else { 0 };
+        let faulty = ndp_iter_faulty(t, u, rem);
+        match r {
+            None => {
+                assert!(false, "iterator stopped in front of unconsumed bytes");
+                return;
+            }
+            Some(Err(e)) => {
+                assert!(faulty);
+                assert!(ndp_iter_err_truthful(&e, t, u, rem));
+                witness!(n_ok == 1 && rem == 1, "iter_err_trailing_byte_after_option");
+                witness!(n_ok == 1 && rem >= 2 && u == 0, "iter_err_zero_length_after_option");
+                witness!(n_ok == 1 && u == 2 && rem == 15, "iter_err_one_byte_missing_in_second");
+                witness!(n_ok == 1 && rem == 16 && t == 3 && u == 2, "iter_err_prefix_info_2_units_second");
+                witness!(n_ok == 1 && rem == 16 && t == 5 && u == 2, "iter_err_mtu_2_units_second");
+                errored = true;
+                finished = true;
+                break;
+            }
+            Some(Ok(o)) => {
+                assert!(!faulty);
+                let olen = (u as usize) * 8;
+                // starts where the previous one ended, covers exactly its length units
+                assert!(at(s, o.as_bytes(), p, olen));
+                assert!(o.option_type().0 == t);
+                assert!(ndp_kind_of(&o) == ref_ndp_kind(t));
+                // remaining area starts exactly behind the option
+                assert!(at(s, it.rest(), p + olen, len - p - olen));
+                witness!(n_ok == 0 && t == 3, "iter_ok_prefix_info_first");
+                witness!(n_ok == 1 && t == 5, "iter_ok_mtu_second");
+                witness!(n_ok == 1 && t == 4 && olen == 16, "iter_ok_redirected_header_second");
+                witness!(n_ok == 1 && t == 9 && olen == 16, "iter_ok_raw_second");
+                witness!(n_ok == 2 && t == 1, "iter_ok_source_lla_third");
+                p += olen;
+                n_ok += 1;
+            }
+        }
+    }
+    assert!(finished, "N/8 + 1 calls are enough to reach the end or the first error");
+    // behind the end of the area and behind an error alike: empty, and it stays that way
+    assert!(it.rest().is_empty());
+    assert!(it.next().is_none());
+    assert!(it.rest().is_empty());
+    witness!(errored, "iter_exhausted_after_error");
+    witness!(!errored && n_ok > 0, "iter_exhausted_after_last_option");
+}
+
+pub fn ndp_iter_32() {
+    ndp_iter::<32>()
+}
+
+pub fn ndp_iter_48() {
+    ndp_iter::<48>()
+}
+
+pub fn ndp_iter_72() {
+    ndp_iter::<72>()
+}
+
+/// the slice (`len` bytes, first bytes d0, d1) is a well-formed stand-alone option for the decoder
+/// of type `want` (`None`: raw decoder, any type) with `fixed` fixed bytes in front
+fn ndp_slice_ok(want: Option<u8>, fixed: usize, d0: u8, d1: u8, len: usize) -> bool {
+    len >= 2
+        && len >= fixed
+        && match want {
+            Some(w) => d0 == w,
+            None => true,
+        }
+        && d1 != 0
+        && (d1 as usize) * 8 == len
+        && match want.and_then(ndp_fixed_units) {
+            Some(fu) => d1 == fu,
+            None => true,
+        }
+}
+
+/// `e` is a true statement about that slice
+fn ndp_slice_err_truthful(e: &NdpOptionReadError, want: Option<u8>, fixed: usize, d0: u8, d1: u8, len: usize) -> bool {
+    use NdpOptionReadError::*;
+    let olen = (d1 as usize) * 8;
+    let fu = want.and_then(ndp_fixed_units);
+    match *e {
+        UnexpectedSize {
+            option_id,
+            expected_size,
+            actual_size,
+        } => {
+            actual_size == len
+                && (
+                    // no complete type + length: the id is the first byte if there is one
+                    (len < 2 && expected_size == 2 && option_id.0 == if len > 0 { d0 } else { 0 })
+                    // fixed part of the wanted type does not fit
+                    || (len < fixed && expected_size == fixed && Some(option_id.0) == want)
+                    // fixed-size option of another size
+                    || match fu {
+                        Some(fu) => {
+                            len != (fu as usize) * 8
+                                && expected_size == (fu as usize) * 8
+                                && Some(option_id.0) == want
+                        }
+                        None => false,
+                    }
+                    // length field and slice length disagree
+                    || (len >= 2 && olen != len && expected_size == olen && option_id.0 == d0)
+                )
+        }
+        UnexpectedEndOfSlice {
+            option_id,
+            expected_size,
+            actual_size,
+        } => len >= 2 && olen > len && option_id.0 == d0 && expected_size == olen && actual_size == len,
+        ZeroLength { option_id } => len >= 2 && d1 == 0 && option_id.0 == d0,
+        UnexpectedHeader {
+            expected_option_id,
+            actual_option_id,
+            expected_length_units,
+            actual_length_units,
+        } => {
+            len >= 2
+                && Some(expected_option_id.0) == want
+                && actual_option_id.0 == d0
+                && actual_length_units == d1
+                && match fu {
+                    // fixed-size option: type or length differ from the prescribed pair
+                    Some(fu) => expected_length_units == fu && (Some(d0) != want || d1 != fu),
+                    // variable-size option: only the type can be wrong (no length is "expected")
+                    None => Some(d0) != want,
+                }
+        }
+        _ => false,
+    }
+}
+
+/// `NdpOptionHeader` + stand-alone decoders of the link-layer address options (types 1, 2)
+pub fn ndp_lla_option_slices() {
+    let (d, len, buf) = input::<N_NDP_OPT>();
+    let s = buf.slice();
+    let (d0, d1) = (d[0], d[1]);
+
+    // common header
+    match NdpOptionHeader::from_slice(s) {
+        Err(e) => {
+            assert!(len < 2);
+            assert!(ndp_slice_err_truthful(&e, None, 0, d0, d1, len));
+            witness!(len == 0, "option_header_empty");
+            witness!(len == 1, "option_header_single_byte");
+        }
+        Ok((h, rest)) => {
+            assert!(len >= 2);
+            assert!(h.option_type.0 == d0 && h.length_units == d1);
+            assert!(h.byte_len() == (d1 as usize) * 8);
+            assert!(h.to_bytes() == [d0, d1]);
+            assert!(NdpOptionHeader::from_bytes([d0, d1]) == h);
+            assert!(at(s, rest, 2, len - 2));
+            witness!(d1 == 255, "option_header_max_units");
+        }
+    }
+
+    let ok = ndp_slice_ok(Some(1), 2, d0, d1, len);
+    match SourceLinkLayerAddressOptionSlice::from_slice(s) {
+        Err(e) => {
+            assert!(!ok);
+            assert!(ndp_slice_err_truthful(&e, Some(1), 2, d0, d1, len));
+            witness!(len >= 2 && d0 == 1 && d1 != 0, "slla_length_mismatch");
+            witness!(len == 16 && d0 == 2 && d1 == 2, "slla_wrong_type");
+            witness!(len == 8 && d0 == 1 && d1 == 0, "slla_zero_length");
+        }
+        Ok(x) => {
+            assert!(ok);
+            assert!(x.option_type().0 == 1);
+            assert!(at(s, x.as_bytes(), 0, len));
+            assert!(at(s, x.link_layer_address(), 2, len - 2));
+            witness!(len == 8, "slla_ok_ethernet");
+            witness!(len == 40, "slla_ok_40");
+        }
+    }
+    let ok = ndp_slice_ok(Some(2), 2, d0, d1, len);
+    match TargetLinkLayerAddressOptionSlice::from_slice(s) {
+        Err(e) => {
+            assert!(!ok);
+            assert!(ndp_slice_err_truthful(&e, Some(2), 2, d0, d1, len));
+            witness!(len == 8 && d0 == 1 && d1 == 1, "tlla_wrong_type");
+            witness!(len == 9 && d0 == 2 && d1 == 1, "tlla_one_byte_too_long");
+        }
+        Ok(x) => {
+            assert!(ok);
+            assert!(x.option_type().0 == 2);
+            assert!(at(s, x.as_bytes(), 0, len));
+            assert!(at(s, x.link_layer_address(), 2, len - 2));
+            witness!(len == 16, "tlla_ok_16");
+        }
+    }
+}
+
+/// stand-alone decoders of the redirected header option (type 4) and of the raw option
+pub fn ndp_redirected_unknown_option_slices() {
+    let (d, len, buf) = input::<N_NDP_OPT>();
+    let s = buf.slice();
+    let (d0, d1) = (d[0], d[1]);
+
+    // 8 fixed bytes (type, length, 6 reserved), then the packet
+    let ok = ndp_slice_ok(Some(4), 8, d0, d1, len);
+    match RedirectedHeaderOptionSlice::from_slice(s) {
+        Err(e) => {
+            assert!(!ok);
+            assert!(ndp_slice_err_truthful(&e, Some(4), 8, d0, d1, len));
+            witness!(len == 7, "redirected_header_too_short");
+            witness!(len >= 8 && d0 == 4 && d1 == 0, "redirected_header_zero_length");
+            witness!(len == 16 && d0 == 4 && d1 == 3, "redirected_header_length_mismatch");
+            witness!(len == 16 && d0 == 3 && d1 == 2, "redirected_header_wrong_type");
+        }
+        Ok(x) => {
+            assert!(ok);
+            assert!(x.option_type().0 == 4);
+            assert!(at(s, x.as_bytes(), 0, len));
+            assert!(at(s, x.redirected_packet(), 8, len - 8));
+            witness!(len == 8, "redirected_header_ok_empty");
+            witness!(len == N_NDP_OPT, "redirected_header_ok_32");
+        }
+    }
+
+    // raw option: any type
+    let ok = ndp_slice_ok(None, 2, d0, d1, len);
+    match UnknownNdpOptionSlice::from_slice(s) {
+        Err(e) => {
+            assert!(!ok);
+            assert!(ndp_slice_err_truthful(&e, None, 2, d0, d1, len));
+            witness!(len == 1, "unknown_option_single_byte");
+            witness!(len == 0, "unknown_option_empty");
+            witness!(len == 8 && d1 == 0, "unknown_option_zero_length");
+            witness!(len == 8 && d1 == 2, "unknown_option_length_mismatch");
+        }
+        Ok(x) => {
+            assert!(ok);
+            assert!(x.option_type().0 == d0);
+            assert!(at(s, x.as_bytes(), 0, len));
+            assert!(at(s, x.data(), 2, len - 2));
+            witness!(len == 24 && d0 == 200, "unknown_option_ok_24");
+            witness!(len == 8 && d0 == 5, "unknown_option_accepts_any_type");
+        }
+    }
+}
+
+/// stand-alone decoder of the MTU option (RFC 4861 4.6.4: 8 bytes, length 1)
+pub fn ndp_mtu_option_slice() {
+    let (d, len, buf) = input::<N_NDP_OPT>();
+    let s = buf.slice();
+    let (d0, d1) = (d[0], d[1]);
+    let ok = len == 8 && d0 == 5 && d1 == 1;
+    assert!(ok == ndp_slice_ok(Some(5), 8, d0, d1, len));
+    match MtuOptionSlice::from_slice(s) {
+        Err(e) => {
+            assert!(!ok);
+            assert!(ndp_slice_err_truthful(&e, Some(5), 8, d0, d1, len));
+            witness!(len == 8 && d0 == 5, "mtu_wrong_units");
+            witness!(len == 8 && d1 == 1, "mtu_wrong_type");
+            witness!(len == 16 && d0 == 5 && d1 == 2, "mtu_wrong_size");
+            witness!(len == 0, "mtu_empty");
+        }
+        Ok(x) => {
+            assert!(ok);
+            assert!(x.option_type().0 == 5);
+            assert!(at(s, x.as_bytes(), 0, 8));
+            assert!(x.mtu() == be32(d[4], d[5], d[6], d[7]));
+            witness!(d[2] != 0, "mtu_ok_reserved_nonzero");
+        }
+    }
+}
+
+/// prefix information option (RFC 4861 4.6.2: 32 bytes, length 4): slice view,
+/// `PrefixInformation::{from_slice, from_bytes, to_bytes}`
+pub fn ndp_prefix_information() {
+    let (d, len, buf) = input::<N_NDP_OPT>();
+    let i16 = any_le(15);
+    let i32_ = any_le(31);
+    let s = buf.slice();
+    let (d0, d1) = (d[0], d[1]);
+    let ok = len == 32 && d0 == 3 && d1 == 4;
+    assert!(ok == ndp_slice_ok(Some(3), 32, d0, d1, len));
+    let valid = be32(d[4], d[5], d[6], d[7]);
+    let preferred = be32(d[8], d[9], d[10], d[11]);
+    let r_slice = PrefixInformationOptionSlice::from_slice(s);
+    let r_struct = PrefixInformation::from_slice(s);
+    match r_slice {
+        Err(e) => {
+            assert!(!ok);
+            assert!(ndp_slice_err_truthful(&e, Some(3), 32, d0, d1, len));
+            witness!(len == 32 && d0 == 3, "prefix_info_wrong_units");
+            witness!(len == 32 && d1 == 4, "prefix_info_wrong_type");
+            witness!(len == 31, "prefix_info_wrong_size");
+            witness!(len == 40 && d0 == 3 && d1 == 5, "prefix_info_5_units");
+            // both entry points reject the same inputs with a true fault
+            match r_struct {
+                Err(e2) => assert!(ndp_slice_err_truthful(&e2, Some(3), 32, d0, d1, len)),
+                Ok(_) => assert!(false, "PrefixInformation::from_slice accepted what the slice view rejects"),
+            }
+        }
+        Ok(x) => {
+            assert!(ok);
+            assert!(x.option_type().0 == 3);
+            assert!(at(s, &x.as_bytes()[..], 0, 32));
+            assert!(x.prefix_length() == d[2]);
+            assert!(x.on_link() == (d[3] & 0x80 != 0));
+            assert!(x.autonomous_address_configuration() == (d[3] & 0x40 != 0));
+            assert!(x.valid_lifetime() == valid);
+            assert!(x.preferred_lifetime() == preferred);
+            assert!(x.prefix()[i16] == d[16 + i16]);
+            let pi = match r_struct {
+                Ok(pi) => pi,
+                Err(_) => {
+                    assert!(false, "PrefixInformation::from_slice rejected what the slice view accepts");
+                    return;
+                }
+            };
+            let pi2 = x.prefix_information();
+            assert!(pi.prefix_length == d[2] && pi2.prefix_length == d[2]);
+            assert!(pi.on_link == (d[3] & 0x80 != 0) && pi2.on_link == pi.on_link);
+            assert!(pi.autonomous_address_configuration == (d[3] & 0x40 != 0));
+            assert!(pi2.autonomous_address_configuration == pi.autonomous_address_configuration);
+            assert!(pi.valid_lifetime == valid && pi2.valid_lifetime == valid);
+            assert!(pi.preferred_lifetime == preferred && pi2.preferred_lifetime == preferred);
+            assert!(pi.prefix[i16] == d[16 + i16] && pi2.prefix[i16] == d[16 + i16]);
+            // the struct re-encodes to the same option with the reserved fields cleared
+            let b = pi.to_bytes();
+            let reserved2 = i32_ >= 12 && i32_ < 16;
+            let want = if reserved2 {
+                0
+            } else if i32_ == 3 {
+                d[3] & 0xc0
+            } else {
+                d[i32_]
+            };
+            assert!(b[i32_] == want);
+            witness!(d[3] == 0xff && d[12] != 0, "prefix_info_ok_reserved_bits_set");
+            witness!(d[3] == 0x40, "prefix_info_ok_autonomous_only");
+            witness!(d[3] == 0x80 && valid == 0xffff_ffff, "prefix_info_ok_on_link_infinite");
+        }
+    }
+}
+
+// ------------------------------------------------------------------------------ IGMP
+
+const N_IGMP: usize = 24;
+
+/// `IgmpHeader::from_slice`: RFC 2236 2 (8 byte messages 0x11, 0x12, 0x16, 0x17), RFC 9776 4
+/// (0x22 report, 0x11 query of >= 12 bytes), 7.1 (query version by length: 8 = v1/v2,
+/// >= 12 = v3, anything else is dropped)
+pub fn igmp_header() {
+    use etherparse::igmp::*;
+    let (d, len, buf) = input::<N_IGMP>();
+    let s = buf.slice();
+    let r = IgmpHeader::from_slice(s);
+    if len < 8 {
+        witness!(len == 7, "igmp_too_short");
+        assert!(r.err() == Some(short(8, len, Layer::Igmp)));
+        return;
+    }
+    let t = d[0];
+    if t == 0x11 && len > 8 && len < 12 {
+        witness!(len == 9, "igmp_query_9_bytes");
+        witness!(len == 11, "igmp_query_11_bytes");
+        assert!(r.err() == Some(short(12, len, Layer::Igmp)));
+        return;
+    }
+    let (h, rest) = match r {
+        Ok(x) => x,
+        Err(_) => {
+            assert!(false, "complete IGMP message rejected");
+            return;
+        }
+    };
+    let group = GroupAddress {
+        octets: [d[4], d[5], d[6], d[7]],
+    };
+    let want = match t {
+        0x11 if len == 8 => IgmpType::MembershipQuery(MembershipQueryType {
+            max_response_time: d[1],
+            group_address: group,
+        }),
+        0x11 => IgmpType::MembershipQueryWithSources(MembershipQueryWithSourcesHeader {
+            max_response_code: MaxResponseCode(d[1]),
+            group_address: group,
+            raw_byte_8: d[8],
+            qqic: d[9],
+            num_of_sources: be16(d[10], d[11]),
+        }),
+        0x12 => IgmpType::MembershipReportV1(MembershipReportV1Type { group_address: group }),
+        0x16 => IgmpType::MembershipReportV2(MembershipReportV2Type { group_address: group }),
+        0x17 => IgmpType::LeaveGroup(LeaveGroupType { group_address: group }),
+        0x22 => IgmpType::MembershipReportV3(MembershipReportV3Header {
+            flags: [d[4], d[5]],
+            num_of_records: be16(d[6], d[7]),
+        }),
+        _ => IgmpType::Unknown(UnknownHeader {
+            igmp_type: t,
+            raw_byte_1: d[1],
+            raw_bytes_4_7: [d[4], d[5], d[6], d[7]],
+        }),
+    };
+    assert!(h.igmp_type == want);
+    assert!(h.checksum == be16(d[2], d[3]));
+    let hl = if t == 0x11 && len >= 12 { 12 } else { 8 };
+    assert!(h.header_len() == hl);
+    assert!(at(s, rest, hl, len - hl));
+    if let IgmpType::MembershipQueryWithSources(q) = &h.igmp_type {
+        // RFC 9776 4.1: | Flags(4) | S | QRV(3) |
+        assert!(q.flags() == d[8] >> 4);
+        assert!(q.s_flag() == (d[8] & 0x08 != 0));
+        assert!(q.qrv().value() == d[8] & 0x07);
+        witness!(len == 12, "igmp_v3_query_no_sources");
+        witness!(len == 16 && d[11] == 1, "igmp_v3_query_one_source");
+    }
+    witness!(t == 0x11 && len == 8 && d[1] == 0, "igmp_v1_query");
+    witness!(t == 0x11 && len == 8 && d[1] != 0, "igmp_v2_query");
+    witness!(t == 0x12, "igmp_v1_report");
+    witness!(t == 0x16 && len == N_IGMP, "igmp_v2_report_trailing_bytes");
+    witness!(t == 0x17, "igmp_leave");
+    witness!(t == 0x22 && len == 16, "igmp_v3_report_one_record");
+    witness!(t == 0x13, "igmp_unassigned_type_raw");
+    witness!(t == 0x10 && len == 10, "igmp_unassigned_type_any_length");
+}
+
+/// `ReportGroupRecordV3Header::from_slice` (RFC 9776 4.2.x group record) + re-encoding
+pub fn igmp_group_record() {
+    use etherparse::igmp::*;
+    let (d, len, buf) = input::<N_IGMP>();
+    let s = buf.slice();
+    match ReportGroupRecordV3Header::from_slice(s) {
+        Err(e) => {
+            witness!(len == 7, "group_record_too_short");
+            assert!(len < 8);
+            assert!(e == short(8, len, Layer::Igmp));
+        }
+        Ok((h, rest)) => {
+            assert!(len >= 8);
+            assert!(h.record_type.0 == d[0]);
+            assert!(h.aux_data_len == d[1]);
+            assert!(h.num_of_sources == be16(d[2], d[3]));
+            assert!(h.multicast_address == [d[4], d[5], d[6], d[7]]);
+            assert!(at(s, rest, 8, len - 8));
+            let b = h.to_bytes();
+            let i = any_le(7);
+            assert!(b[i] == d[i]);
+            witness!(len == 8, "group_record_header_only");
+            witness!(len == 16 && d[3] == 2 && d[0] == 7, "group_record_unassigned_type_with_sources");
+        }
+    }
+}
+
+/// `MaxResponseCode::as_10th_secs` for all 256 codes (RFC 9776 4.1.1: < 128 verbatim, otherwise
+/// 1|exp(3)|mant(4) -> (mant | 0x10) << (exp + 3))
+pub fn igmp_max_resp_code() {
+    let c: u8 = any();
+    let got = etherparse::igmp::MaxResponseCode(c).as_10th_secs();
+    let want: u32 = if c < 128 {
+        c as u32
+    } else {
+        let mant = (c % 16) as u32;
+        let exp = ((c / 16) % 8) as u32;
+        // (16 + mant) * 2^(exp + 3)
+        let mut v = 16 + mant;
+        let mut k = 0;
+        while k < exp + 3 {
+            v *= 2;
+            k += 1;
+        }
+        v
+    };
+    assert!(got as u32 == want);
+    witness!(c == 127 && got == 127, "max_resp_code_linear_max");
+    witness!(c == 128 && got == 128, "max_resp_code_float_min");
+    witness!(c == 255 && got == 31744, "max_resp_code_float_max");
+}
+
+// ------------------------------------------------------------------------------ ARP
+
+const N_ARP: usize = 36;
+
+/// `ArpPacketSlice` (RFC 826 packet format: hrd, pro, hln, pln, op, sha, spa, tha, tpa)
+pub fn arp_slice() {
+    let (d, len, buf) = input::<N_ARP>();
+    let s = buf.slice();
+    let r = ArpPacketSlice::from_slice(s);
+    if len < 8 {
+        witness!(len == 7, "arp_fixed_part_too_short");
+        assert!(r.err() == Some(short(8, len, Layer::Arp)));
+        return;
+    }
+    let hl = d[4] as usize;
+    let pl = d[5] as usize;
+    let need = 8 + 2 * hl + 2 * pl;
+    if len < need {
+        witness!(len + 1 == need, "arp_addresses_cut_by_one");
+        witness!(d[4] == 255 && d[5] == 255, "arp_max_address_sizes");
+        let e = match r {
+            Err(e) => e,
+            Ok(_) => {
+                assert!(false, "ARP packet with truncated addresses accepted");
+                return;
+            }
+        };
+        assert!(e.required_len == need);
+        assert!(e.len == len);
+        assert!(e.layer == Layer::Arp);
+        assert!(e.layer_start_offset == 0);
+        // which length source this error should name is C07's subject (known finding there:
+        // the crate names the address length fields that demanded the length, `len` is the slice)
+        assert!(e.len_source == LenSource::ArpAddrLengths || e.len_source == LenSource::Slice);
+        return;
+    }
+    let v = match r {
+        Ok(v) => v,
+        Err(_) => {
+            assert!(false, "complete ARP packet rejected");
+            return;
+        }
+    };
+    // the view ends with the last address, trailing bytes are not part of it
+    assert!(at(s, v.slice(), 0, need));
+    assert!(v.hw_addr_type().0 == be16(d[0], d[1]));
+    assert!(v.proto_addr_type().0 == be16(d[2], d[3]));
+    assert!(v.hw_addr_size() == d[4]);
+    assert!(v.proto_addr_size() == d[5]);
+    assert!(v.operation().0 == be16(d[6], d[7]));
+    assert!(at(s, v.sender_hw_addr(), 8, hl));
+    assert!(at(s, v.sender_protocol_addr(), 8 + hl, pl));
+    assert!(at(s, v.target_hw_addr(), 8 + hl + pl, hl));
+    assert!(at(s, v.target_protocol_addr(), 8 + 2 * hl + pl, pl));
+    witness!(hl == 6 && pl == 4 && len == 28, "arp_eth_ipv4_exact");
+    witness!(hl == 6 && pl == 4 && len == N_ARP, "arp_eth_ipv4_trailing_bytes");
+    witness!(hl == 0 && pl == 0 && len == 8, "arp_zero_length_addresses");
+    witness!(hl == 1 && pl == 13, "arp_odd_sizes_max_sum");
+    witness!(hl == 14 && pl == 0, "arp_hw_only");
+}
+
+/// true statement about why a packet (hrd, pro, hln, pln) is not the Ethernet / IPv4 form
+fn arp_eth_ipv4_err_truthful(e: &err::arp::ArpEthIpv4FromError, hrd: u16, pro: u16, hln: u8, pln: u8) -> bool {
+    use etherparse::err::arp::ArpEthIpv4FromError::*;
+    match *e {
+        NonMatchingHwType(x) => x.0 == hrd && hrd != 1,
+        NonMatchingProtocolType(x) => x.0 == pro && pro != 0x0800,
+        NonMatchingHwAddrSize(x) => x == hln && hln != 6,
+        NonMatchingProtoAddrSize(x) => x == pln && pln != 4,
+    }
+}
+
+/// `ArpPacketSlice::to_packet` -> `ArpPacket::try_eth_ipv4`: the Ethernet / IPv4 view
+/// exists exactly for hrd = 1, pro = 0x0800, hln = 6, pln = 4 (RFC 826), otherwise the error
+/// names a field that really differs. All address sizes symbolic; field *contents* of the owned
+/// packet are checked in `arp_eth_ipv4_fields` (a copy of symbolic length followed by a read
+/// is beyond the solver).
+pub fn arp_eth_ipv4_classify() {
+    let (d, len, buf) = input::<N_ARP>();
+    let s = buf.slice();
+    let hl = d[4] as usize;
+    let pl = d[5] as usize;
+    assume(len >= 8);
+    assume(len >= 8 + 2 * hl + 2 * pl);
+    let v = must_accept!(ArpPacketSlice::from_slice(s), "complete ARP packet rejected");
+    let pkt = v.to_packet();
+    let hrd = be16(d[0], d[1]);
+    let pro = be16(d[2], d[3]);
+    let op = be16(d[6], d[7]);
+    assert!(pkt.hw_addr_type.0 == hrd);
+    assert!(pkt.proto_addr_type.0 == pro);
+    assert!(pkt.operation.0 == op);
+    assert!(pkt.hw_addr_size() == d[4]);
+    assert!(pkt.protocol_addr_size() == d[5]);
+    assert!(pkt.packet_len() == 8 + 2 * hl + 2 * pl);
+    assert!(pkt.sender_hw_addr().len() == hl);
+    assert!(pkt.target_hw_addr().len() == hl);
+    assert!(pkt.sender_protocol_addr().len() == pl);
+    assert!(pkt.target_protocol_addr().len() == pl);
+    let is_eth_ipv4 = hrd == 1 && pro == 0x0800 && hl == 6 && pl == 4;
+    let r = pkt.try_eth_ipv4();
+    assert!(r.is_ok() == is_eth_ipv4);
+    match r {
+        Err(e) => {
+            assert!(arp_eth_ipv4_err_truthful(&e, hrd, pro, d[4], d[5]));
+            witness!(hrd == 1 && pro == 0x0800 && hl == 6 && pl == 5, "arp_not_eth_ipv4_proto_size");
+            witness!(hrd == 1 && pro == 0x0800 && hl == 5 && pl == 4, "arp_not_eth_ipv4_hw_size");
+            witness!(hrd == 1 && pro == 0x86dd && hl == 6 && pl == 4, "arp_not_eth_ipv4_proto_type");
+            witness!(hrd == 6 && pro == 0x0800 && hl == 6 && pl == 4, "arp_not_eth_ipv4_hw_type");
+            witness!(hrd == 1 && pro == 0x0800 && hl == 4 && pl == 6, "arp_not_eth_ipv4_sizes_swapped");
+        }
+        Ok(p) => {
+            assert!(p.operation.0 == op);
+            witness!(len == 28, "arp_eth_ipv4_exact_size");
+            witness!(len == N_ARP, "arp_eth_ipv4_with_trailing_bytes");
+        }
+    }
+}
+
+/// owned ARP packet with the concrete address sizes (HL, PL), everything else symbolic:
+/// `ArpPacket` holds the field values and address bytes of the slice; for (6, 4) the
+/// Ethernet / IPv4 view carries sha, spa, tha, tpa from bytes 8.., 14.., 18.., 24.. (RFC 826)
+fn arp_owned<const HL: usize, const PL: usize>() -> ([u8; 64], usize, Result<ArpEthIpv4Packet, err::arp::ArpEthIpv4FromError>) {
+    let mut d: [u8; 64] = any();
+    d[4] = HL as u8;
+    d[5] = PL as u8;
+    let need = 8 + 2 * HL + 2 * PL;
+    assert!(need + 4 <= 64);
+    let len = need + any_le(4);
+    let s = &d[..len];
+    let v = must_accept!(ArpPacketSlice::from_slice(s), "complete ARP packet rejected");
+    let pkt = v.to_packet();
+    let hrd = be16(d[0], d[1]);
+    let pro = be16(d[2], d[3]);
+    let op = be16(d[6], d[7]);
+    // One compound assertion per group of fields: with assertion reachability checks on, Kani
+    // keeps a solver trace behind every single assertion, and each trace step that moves an
+    // `ArpPacket` prints its four 255 byte buffers (a field-by-field version of this harness
+    // produced 2 GB of solver output).
+    assert!(
+        pkt.hw_addr_type.0 == hrd && pkt.proto_addr_type.0 == pro && pkt.operation.0 == op,
+        "owned ARP packet: hrd / pro / op differ from bytes 0-3, 6-7"
+    );
+    assert!(
+        pkt.hw_addr_size() as usize == HL && pkt.protocol_addr_size() as usize == PL && pkt.packet_len() == need,
+        "owned ARP packet: address sizes / packet length"
+    );
+    assert!(
+        pkt.sender_hw_addr().len() == HL
+            && pkt.target_hw_addr().len() == HL
+            && pkt.sender_protocol_addr().len() == PL
+            && pkt.target_protocol_addr().len() == PL,
+        "owned ARP packet: address slice lengths"
+    );
+    // every address byte (symbolic position inside the concrete sizes)
+    let i = any_le(HL.saturating_sub(1));
+    let j = any_le(PL.saturating_sub(1));
+    assert!(
+        HL == 0 || (pkt.sender_hw_addr()[i] == d[8 + i] && pkt.target_hw_addr()[i] == d[8 + HL + PL + i]),
+        "owned ARP packet: sha / tha bytes"
+    );
+    assert!(
+        PL == 0 || (pkt.sender_protocol_addr()[j] == d[8 + HL + j] && pkt.target_protocol_addr()[j] == d[8 + 2 * HL + PL + j]),
+        "owned ARP packet: spa / tpa bytes"
+    );
+    let r = pkt.try_eth_ipv4();
+    let is_eth_ipv4 = hrd == 1 && pro == 0x0800 && HL == 6 && PL == 4;
+    let truthful = match &r {
+        Ok(_) => true,
+        Err(e) => arp_eth_ipv4_err_truthful(e, hrd, pro, HL as u8, PL as u8),
+    };
+    assert!(r.is_ok() == is_eth_ipv4 && truthful, "try_eth_ipv4: wrong verdict or untrue error value");
+    // the `TryFrom<ArpPacket>` conversion is the same function
+    assert!(ArpEthIpv4Packet::try_from(v.to_packet()) == r, "TryFrom<ArpPacket> differs from try_eth_ipv4");
+    (d, len, r)
+}
+
+pub fn arp_eth_ipv4_fields() {
+    let (d, len, r) = arp_owned::<6, 4>();
+    let hrd = be16(d[0], d[1]);
+    let pro = be16(d[2], d[3]);
+    let op = be16(d[6], d[7]);
+    let k6 = any_le(5);
+    let k4 = any_le(3);
+    let k28 = any_le(27);
+    match r {
+        Err(_) => {
+            witness!(hrd == 1 && pro == 0x0806, "arp_6_4_other_protocol");
+            witness!(hrd == 0x0100 && pro == 0x0800, "arp_6_4_hw_type_byte_swapped");
+        }
+        Ok(p) => {
+            // RFC 826 with hln = 6, pln = 4: sha 8.., spa 14.., tha 18.., tpa 24..
+            assert!(
+                p.operation.0 == op
+                    && p.sender_mac[k6] == d[8 + k6]
+                    && p.sender_ipv4[k4] == d[14 + k4]
+                    && p.target_mac[k6] == d[18 + k6]
+                    && p.target_ipv4[k4] == d[24 + k4],
+                "Ethernet/IPv4 view: op, sha, spa, tha or tpa taken from the wrong bytes"
+            );
+            assert!(
+                p.sender_ipv4_addr().octets()[k4] == d[14 + k4] && p.target_ipv4_addr().octets()[k4] == d[24 + k4],
+                "Ethernet/IPv4 view: Ipv4Addr accessors"
+            );
+            // re-encoding gives back the 28 bytes of the RFC 826 packet
+            assert!(p.to_bytes()[k28] == d[k28], "Ethernet/IPv4 view: to_bytes differs from the decoded bytes");
+            witness!(op == 1 && len == 28, "arp_eth_ipv4_request");
+            witness!(op == 2 && len == 32, "arp_eth_ipv4_reply_trailing_bytes");
+            witness!(op == 0x1234, "arp_eth_ipv4_unassigned_operation");
+        }
+    }
+}
+
+/// the Ethernet / IPv4 sizes swapped (hln = 4, pln = 6): owned packet holds the right bytes,
+/// never the Ethernet / IPv4 view, whatever hrd / pro say
+pub fn arp_owned_4_6() {
+    let (d, len, r) = arp_owned::<4, 6>();
+    assert!(r.is_err());
+    witness!(be16(d[0], d[1]) == 1 && be16(d[2], d[3]) == 0x0800 && len == 28, "arp_owned_eth_ipv4_types_swapped_sizes");
+    witness!(be16(d[0], d[1]) == 6, "arp_owned_other_hw_type");
+}
+
+crate::harnesses! {
+    c17_icmpv4_slice = icmpv4_slice; unwind 40,
+    c17_icmpv4_header = icmpv4_header; unwind 40,
+    c17_icmpv6_slice = icmpv6_slice; unwind 40,
+    c17_icmpv6_payload_dispatch = icmpv6_payload_dispatch; unwind 40,
+    c17_icmp_header_read = icmp_header_read; unwind 40,
+    c17_ndp_router_payloads = ndp_router_payloads; unwind 40,
+    c17_ndp_neighbor_payloads = ndp_neighbor_payloads; unwind 40,
+    c17_ndp_redirect_payload = ndp_redirect_payload; unwind 40,
+    c17_ndp_iter_first = ndp_iter_first; unwind 42,
+    c17_ndp_iter_first_tight = ndp_iter_first_tight; unwind 42,
+    c17_ndp_iter_32 = ndp_iter_32; unwind 34,
+    c17_ndp_iter_48 = ndp_iter_48; unwind 50,
+    c17_ndp_iter_72 = ndp_iter_72; unwind 74,
+    c17_ndp_lla_option_slices = ndp_lla_option_slices; unwind 40,
+    c17_ndp_redirected_unknown_option_slices = ndp_redirected_unknown_option_slices; unwind 40,
+    c17_ndp_mtu_option_slice = ndp_mtu_option_slice; unwind 40,
+    c17_ndp_prefix_information = ndp_prefix_information; unwind 40,
+    c17_igmp_header = igmp_header; unwind 40,
+    c17_igmp_group_record = igmp_group_record; unwind 40,
+    c17_igmp_max_resp_code = igmp_max_resp_code; unwind 40,
+    c17_arp_slice = arp_slice; unwind 40,
+    c17_arp_eth_ipv4_classify = arp_eth_ipv4_classify; unwind 40,
+    c17_arp_eth_ipv4_fields = arp_eth_ipv4_fields; unwind 40,
+    c17_arp_owned_4_6 = arp_owned_4_6; unwind 40,
+}
